@@ -179,3 +179,72 @@ func c11Closure(N, steps, minM int) {
 
 func H_c11_closure_q() { c11Closure(5, 2, 8) }
 func H_c11_closure_t() { c11Closure(6, 2, 11) }
+
+// c11TwoBlocks: two dense blocks on 5 vertices (every labelled graph with >= minM edges)
+// glued at one symbolic vertex each (9 vertices, two large biconnected components), in
+// either label order: planar iff both blocks are planar; no panic.
+func c11TwoBlocks(minM int) {
+	pick := func(name string) [][]bool {
+		adj := vgAdj(5, vgBits(5))
+		m := 0
+		for i := 0; i < 5; i++ {
+			for j := i + 1; j < 5; j++ {
+				if adj[i][j] {
+					m++
+				}
+			}
+		}
+		rt.Assume(m >= minM)
+		return adj
+	}
+	a, b := pick("a"), pick("b")
+	ga := rt.Choice("glueA", 5)
+	gb := rt.Choice("glueB", 5)
+	n := 9
+	adj := make([][]bool, n)
+	for i := range adj {
+		adj[i] = make([]bool, n)
+	}
+	// block A on 0..4; block B on 5..8 plus the glue vertex ga
+	mapB := func(v int) int {
+		if v == gb {
+			return ga
+		}
+		if v > gb {
+			return 4 + v
+		}
+		return 5 + v
+	}
+	for i := 0; i < 5; i++ {
+		for j := 0; j < 5; j++ {
+			if a[i][j] {
+				adj[i][j] = true
+			}
+			if b[i][j] {
+				adj[mapB(i)][mapB(j)] = true
+			}
+		}
+	}
+	if rt.Choice("reverse", 2) == 1 {
+		p := make([]int, n)
+		for v := range p {
+			p[v] = n - 1 - v
+		}
+		adj = vgRelabel(adj, p)
+	}
+	want := c11PlanarSmall(a) && c11PlanarSmall(b)
+	var g Graph
+	if rt.Choice("rep", 2) == 0 {
+		g = vgDense(adj)
+	} else {
+		g = vgSparse(adj)
+	}
+	got, ok := c11Call(g, "two blocks")
+	if ok {
+		rt.Check(got == want, "IsPlanar of two blocks sharing a vertex differs from the planarity of the blocks")
+	}
+	rt.Reach("end")
+}
+
+func H_c11_twoblocks_q() { c11TwoBlocks(9) }
+func H_c11_twoblocks_t() { c11TwoBlocks(8) }
